@@ -331,6 +331,7 @@ func runC17(c *Ctx) {
 		c17Caller(c, ser, spawns)
 	}
 	c17Keys(c)
+	c17URLPrecedence(c)
 }
 
 func c17Serialiser(c *Ctx, F *ssa.Function) {
@@ -727,4 +728,90 @@ var c17Canaries = []Canary{
 	{Name: "ignore-buffer-error", ExpectKey: "C17.O3", Edits: []Edit{{File: "creds/creds.go", Find: "	cmd.Stdin, err = input.buffer(h.protectProtocol)\n	if err != nil {", Repl: "	cmd.Stdin, err = input.buffer(h.protectProtocol)\n	if err != nil && subcommand == \"fill\" {"}}},
 	{Name: "index-off-by-one", ExpectKey: ":LF", Edits: []Edit{{File: "creds/creds.go", Find: `if strings.Contains(item, "\n") {`, Repl: `if strings.Index(item, "\n") > 0 {`}}},
 	{Name: "missing-lf-terminator", ExpectKey: "C17.O4", Edits: []Edit{{File: "creds/creds.go", Find: "			buf.Write([]byte(item))\n			buf.Write([]byte(\"\\n\"))", Repl: "			buf.Write([]byte(item))\n			buf.Write([]byte(\";\"))"}}},
+}
+
+// c17URLPrecedence (O7): whether CR protection is on for a URL is looked up as credential.<url>.protectProtocol with
+// Git's URL matching: a configuration entry whose host matches less exactly never overrides one whose host matches
+// more exactly, however long its path match. Decided on the matcher: inside the loop over the configured keys the
+// best match so far is replaced only on paths where the candidate's host score was tested not to be lower than the
+// best one's.
+func c17URLPrecedence(c *Ctx) {
+	p := c.P
+	fn := p.Fn("config", "(*URLConfig).getAll")
+	if fn == nil {
+		c.Missing("O7", "(*config.URLConfig).getAll", "not found")
+		return
+	}
+	// whole-struct assignments best = candidate
+	type asg struct {
+		st        *ssa.Store
+		best, cnd ssa.Value
+	}
+	var asgs []asg
+	for _, b := range fn.Blocks {
+		for _, in := range b.Instrs {
+			st, ok := in.(*ssa.Store)
+			if !ok {
+				continue
+			}
+			dst, isAl := st.Addr.(*ssa.Alloc)
+			ld, isLd := st.Val.(*ssa.UnOp)
+			if !isAl || !isLd || ld.Op != token.MUL {
+				continue
+			}
+			src, isAl2 := ld.X.(*ssa.Alloc)
+			if !isAl2 || !strings.HasSuffix(short(dst.Type().String()), "urlMatch") {
+				continue
+			}
+			asgs = append(asgs, asg{st, dst, src})
+		}
+	}
+	if !c.AtLeast("O7", "assignments of a new best match", len(asgs), 1) {
+		return
+	}
+	loops := Loops(fn)
+	for i, a := range asgs {
+		isScore := func(v ssa.Value, base ssa.Value) bool {
+			ld, ok := v.(*ssa.UnOp)
+			if !ok || ld.Op != token.MUL {
+				return false
+			}
+			fa, ok := ld.X.(*ssa.FieldAddr)
+			if !ok || fa.X != base {
+				return false
+			}
+			_, f := fieldAddrName(fa)
+			return f == "hostScore"
+		}
+		pass := PassEdges(fn, func(cond ssa.Value) (bool, bool) {
+			op, x, y, ok := BinCmp(cond)
+			if !ok {
+				return false, false
+			}
+			switch {
+			case isScore(x, a.cnd) && isScore(y, a.best): // cand OP best
+				switch op {
+				case token.LSS:
+					return false, true
+				case token.GEQ, token.GTR, token.EQL:
+					return true, true
+				}
+			case isScore(x, a.best) && isScore(y, a.cnd): // best OP cand
+				switch op {
+				case token.GTR:
+					return false, true
+				case token.LEQ, token.LSS, token.EQL:
+					return true, true
+				}
+			}
+			return false, false
+		})
+		entry := fn.Blocks[0]
+		if l := LoopOf(loops, a.st.Block()); l != nil {
+			entry = l.Body
+		}
+		g, path := Guarded(entry, a.st, pass, nil)
+		c.Check(g && nonVacuous(pass), "O7", fmt.Sprintf("best-match-replaced-only-by-no-worse-host#%d", i), p.InstrPos(a.st), "a candidate replaces the best match only when its host matches at least as exactly",
+			"a configuration entry whose host matches LESS exactly can replace the best match (e.g. through a longer path match): credential.<wildcard-host>/path.protectProtocol=false then switches CR protection off for a host that has its own protectProtocol=true: "+path)
+	}
 }
